@@ -25,13 +25,52 @@ PARAM_TYPES = [
     ty.TypedDictT("TD1", {"a": (I, True), "b": (S, False)}),
     ty.TypeOf(A), ty.Union(ty.List(I), ty.Tuple(I, I)), ty.Union(ty.List(I), NONE), ty.Union(ty.Dict(S, I), NONE),
     ty.Union(F, I), ty.Union(S, ty.Cls(bytes)), ty.Iter(I),
+    # tuples with an unbounded member (PEP 646) before, between and after fixed members
+    ty.MixTuple([I], S, [F]), ty.MixTuple([I, ty.Cls(bytes)], S, [F, B_]), ty.MixTuple([], S, [I]), ty.MixTuple([I], S, []),
+    ty.MixTuple([], ty.Union(I, NONE), [S, S]),
 ]
 
 LITS = ["0", "1", "2", "-1", "True", "False", "None", "'a'", "'b'", "''", "1.5", "b'x'", "Color.RED", "Color.GREEN", "Num.ONE"]
 
 
 def is_sized(t: Ty) -> bool:
-    return t.kind in ("List", "Set", "Dict", "Tuple", "VarTuple", "Seq", "TypedDict") or (t.kind == "Cls" and t.extra in (str, bytes))
+    return t.kind in ("List", "Set", "Dict", "Tuple", "VarTuple", "MixTuple", "Seq", "TypedDict") or (t.kind == "Cls" and t.extra in (str, bytes))
+
+
+def tuple_elem(t: Ty) -> Ty:
+    """Belief about one element of a tuple-like type, whatever its position."""
+    if t.kind == "Tuple":
+        return ty.Union(*t.args) if t.args else ty.ANY
+    if t.kind == "MixTuple":
+        prefix, star, suffix = t.args
+        return ty.Union(*prefix, star, *suffix)
+    return t.args[0] if t.args else ty.ANY
+
+
+def tuple_width(t: Ty) -> int:
+    """Number of member positions (the unbounded member counts once)."""
+    if t.kind == "Tuple":
+        return len(t.args)
+    if t.kind == "MixTuple":
+        return len(t.args[0]) + 1 + len(t.args[2])
+    return 2
+
+
+def sweep_indices(n: int) -> list:
+    """Every constant index from -(n+1) to n, ordered by the tuple length it needs (0, -1, 1, -2, ...): at run time
+    all indices that are valid for the actual tuple are evaluated before the first one that raises IndexError."""
+    out = []
+    for k in range(n + 1):
+        out += [k, -(k + 1)]
+    return out
+
+
+class Productions(set):
+    """The set of production names used (what callers expect), plus how often each was used."""
+
+    def __init__(self, *a):
+        super().__init__(*a)
+        self.counts: dict = {}
 
 
 def union_members(t: Ty) -> list:
@@ -70,7 +109,7 @@ class Gen:
         self.max_stmts = max_stmts
         self.max_depth = max_depth
         self.counter = 0
-        self.productions: set = set()
+        self.productions: Productions = Productions()
         self.budget = 0
 
     # ------------------------------------------------------------------ helpers
@@ -80,6 +119,7 @@ class Gen:
 
     def note(self, prod: str) -> None:
         self.productions.add(prod)
+        self.productions.counts[prod] = self.productions.counts.get(prod, 0) + 1
 
     def pick_var(self, env, pred=None):
         cands = [v for v, t in env.items() if pred is None or pred(t)]
@@ -99,6 +139,17 @@ class Gen:
             self.note("expr:name")
             return v, env[v]
         if choice < 0.70:
+            star = self.pick_var(env, lambda t: t.kind in ("VarTuple", "List", "Tuple", "MixTuple", "Seq")) if r.random() < 0.25 else None
+            if star is not None:
+                # a display with an unpacked member: (a, *xs, b) / [a, *xs] / (*xs, b) ...
+                pre = [self.expr(env, depth + 1) for _ in range(r.randrange(0, 3))]
+                suf = [self.expr(env, depth + 1) for _ in range(r.randrange(0, 3))]
+                inner = ", ".join([p[0] for p in pre] + ["*" + star] + [p[0] for p in suf])
+                if r.random() < 0.7:
+                    self.note("expr:tuple-display-star")
+                    return f"({inner},)", ty.MixTuple([p[1] for p in pre], tuple_elem(env[star]), [p[1] for p in suf])
+                self.note("expr:list-display-star")
+                return f"[{inner}]", ty.List(ty.Union(tuple_elem(env[star]), *[p[1] for p in pre + suf]))
             n = r.randrange(0, 4)
             parts = [self.expr(env, depth + 1) for _ in range(n)]
             self.note("expr:tuple-display")
@@ -130,10 +181,22 @@ class Gen:
 
     def subscript(self, env):
         r = self.rng
-        v = self.pick_var(env, lambda t: t.kind in ("Tuple", "VarTuple", "List", "Dict", "Seq", "TypedDict") or (t.kind == "Cls" and t.extra in (str, bytes)))
+        v = self.pick_var(env, lambda t: t.kind in ("Tuple", "VarTuple", "MixTuple", "List", "Dict", "Seq", "TypedDict") or (t.kind == "Cls" and t.extra in (str, bytes)))
         if v is None:
             return None
         t = env[v]
+        if t.kind == "MixTuple":
+            n = tuple_width(t)
+            if r.random() < 0.2:
+                lo = r.choice(["", "1", "-1"])
+                hi = r.choice(["", "1", "2", "-1"])
+                self.note("expr:subscript-slice")
+                return f"{v}[{lo}:{hi}]", ty.VarTuple(tuple_elem(t))
+            idx = r.choice(list(range(-n - 1, n + 1)))
+            pos = idx if idx >= 0 else n + idx
+            where = "oob" if not 0 <= pos < n else "before-star" if pos < len(t.args[0]) else "at-star" if pos == len(t.args[0]) else "after-star"
+            self.note("expr:subscript-startuple-" + ("neg-" if idx < 0 else "pos-") + where)
+            return f"{v}[{idx}]", tuple_elem(t)
         if t.kind == "Tuple":
             n = len(t.args)
             if r.random() < 0.2:
@@ -301,6 +364,8 @@ class Gen:
             return [f"{v} = {src}"]
         if choice < 0.34 or deep:
             return self.use(env)
+        if choice < 0.385:
+            return self.stored_cond(env, depth, in_loop)
         if choice < 0.56:
             src, nv, pos, neg = self.cond(env)
             e1, e2 = dict(env), dict(env)
@@ -341,8 +406,10 @@ class Gen:
             return self.try_(env, depth, in_loop)
         if choice < 0.82:
             return self.match(env, depth, in_loop)
-        if choice < 0.88:
+        if choice < 0.865:
             return self.unpack(env)
+        if choice < 0.88:
+            return self.sweep(env)
         if choice < 0.92 and in_loop:
             self.note("stmt:break/continue")
             src, *_ = self.cond(env)
@@ -368,6 +435,76 @@ class Gen:
         env[w] = t
         return [f"if ({w} := {src}) is not None:"] + ["    " + l for l in body] + [f"use({w})"]
 
+    def sweep(self, env, v=None) -> list:
+        """Reads EVERY constant index of a tuple-typed variable (in range for fixed tuples; from -(n+1) to n when the
+        tuple has an unbounded member, since any of them may exist at run time)."""
+        v = v or self.pick_var(env, lambda t: t.kind == "MixTuple") or self.pick_var(env, lambda t: t.kind in ("Tuple", "VarTuple"))
+        if v is None:
+            return self.use(env)
+        t = env[v]
+        n = tuple_width(t)
+        if t.kind == "Tuple":
+            if not n:
+                return self.use(env)
+            self.note("stmt:index-sweep-fixed-tuple")
+            return [f"use({v}[{i}])" for i in range(-n, n)]
+        self.note("stmt:index-sweep-star-tuple" if t.kind == "MixTuple" else "stmt:index-sweep-var-tuple")
+        return ["try:"] + [f"    use({v}[{i}])" for i in sweep_indices(n)] + ["except IndexError:", "    pass"]
+
+    def stored_cond(self, env, depth, in_loop) -> list:
+        """A narrowing condition is evaluated and STORED, the tested variable is then left alone / rebound on some
+        paths only / rebound on all paths, and the stored condition is tested afterwards."""
+        r = self.rng
+        pool = [k for k in env if not k.startswith(("n", "i", "ok"))]
+        if not pool:
+            return self.use(env)
+        v = r.choice(pool)
+        src, nv, pos, neg = self.cond(env, v)
+        ok = self.fresh("ok")
+        lines = [f"{ok} = {src}"]
+        how = r.choice(["none", "if", "else", "for", "while", "try", "except", "all"])
+        self.note("stmt:stored-cond+rebind-" + how)
+        if how != "none":
+            new_src, new_t = self.expr(env, 1)
+            if new_src == v:
+                new_src, new_t = r.choice(LITS), ty.ANY
+            asg = f"{v} = {new_src}"
+            if how in ("if", "else"):
+                path = "flip()" if r.random() < 0.4 else self.cond(env)[0]
+                lines += [f"if {path}:", f"    {asg}"] if how == "if" else [f"if {path}:", "    pass", "else:", f"    {asg}"]
+            elif how == "for":
+                it = self.pick_var(env, lambda t: t.kind in ("List", "VarTuple", "Set", "Seq")) if r.random() < 0.5 else None
+                lines += [f"for {self.fresh('i')} in {it or 'range(' + str(r.choice([0, 1, 2])) + ')'}:", f"    {asg}"]
+            elif how == "while":
+                lines += [f"while {'flip()' if r.random() < 0.5 else self.cond(env)[0]}:", f"    {asg}", "    break"]
+            elif how == "try":
+                lines += ["try:", f"    {r.choice(['may_raise()', 'boom()', 'zero()'])}", f"    {asg}", "except ValueError:", "    pass"]
+            elif how == "except":
+                lines += ["try:", f"    {r.choice(['may_raise()', 'boom()', 'zero()'])}", "except ValueError:", f"    {asg}"]
+            else:
+                lines += [asg]
+            env[v] = new_t if how == "all" else ty.Union(env[v], new_t)
+        e1, e2 = dict(env), dict(env)
+        if how == "none" and nv is not None:
+            if pos is not None and pos.kind != "Never":
+                e1[nv] = pos
+            if neg is not None and neg.kind != "Never":
+                e2[nv] = neg
+        negate = r.random() < 0.3
+        if negate:
+            e1, e2 = e2, e1
+            self.note("stmt:stored-cond-tested-negated")
+        lines += [f"if {'not ' if negate else ''}{ok}:"] + ["    " + l for l in [f"use({v})"] + self.block(e1, depth + 1, in_loop, n=1)]
+        if r.random() < 0.7:
+            lines += ["else:"] + ["    " + l for l in [f"use({v})"] + self.block(e2, depth + 1, in_loop, n=1)]
+        for k in set(e1) & set(e2):
+            if k not in env:
+                env[k] = ty.Union(e1[k], e2[k])
+            elif (e1[k] != env[k] or e2[k] != env[k]) and k != v:
+                env[k] = ty.Union(e1[k], e2[k])
+        env[ok] = B_
+        return lines + [f"use({v})"]
+
     def loop(self, env, depth) -> list:
         r = self.rng
         kind = r.random()
@@ -379,13 +516,13 @@ class Gen:
             lines = [f"for {i} in range({r.choice([0, 1, 2, 3])}):"]
             self.note("stmt:for-range")
         elif kind < 0.65:
-            v = self.pick_var(env, lambda t: t.kind in ("List", "Tuple", "VarTuple", "Set", "Seq", "Iter", "Dict"))
+            v = self.pick_var(env, lambda t: t.kind in ("List", "Tuple", "VarTuple", "MixTuple", "Set", "Seq", "Iter", "Dict"))
             if v is None:
                 return self.use(env)
             t = env[v]
             el = self.fresh("e")
             e = dict(env)
-            e[el] = ty.Union(*t.args) if t.kind == "Tuple" and t.args else (t.args[0] if t.args else ty.ANY)
+            e[el] = tuple_elem(t)
             lines = [f"for {el} in {v}:", f"    use({el})"]
             self.note("stmt:for-iter")
         else:
@@ -462,6 +599,11 @@ class Gen:
                 k = r.randrange(0, len(m.args) + 1)  # k fixed sub-patterns, then a star: binds [] when k == len
                 names = [self.fresh("p") for _ in range(k)]
                 pats.append(("[" + ", ".join(names + ["*" + self.fresh("p")]) + "]", m, "pattern:sequence-star-on-fixed-tuple"))
+            elif m.kind == "MixTuple":
+                # k sub-patterns before the star and j after it: they may reach into the unbounded member
+                k, j = r.randrange(0, len(m.args[0]) + 2), r.randrange(0, len(m.args[2]) + 2)
+                names = [self.fresh("p") for _ in range(k)] + ["*" + self.fresh("p")] + [self.fresh("p") for _ in range(j)]
+                pats.append(("[" + ", ".join(names) + "]", m, "pattern:sequence-star-on-star-tuple"))
             elif m.kind in ("List", "VarTuple", "Seq"):
                 a, rest = self.fresh("p"), self.fresh("p")
                 pats.append((f"[{a}, *{rest}]", m, "pattern:sequence-star"))
@@ -535,10 +677,19 @@ class Gen:
 
     def unpack(self, env) -> list:
         r = self.rng
-        v = self.pick_var(env, lambda t: t.kind in ("Tuple", "VarTuple", "List"))
+        v = self.pick_var(env, lambda t: t.kind in ("Tuple", "VarTuple", "MixTuple", "List"))
         if v is None:
             return self.use(env)
         t = env[v]
+        if t.kind == "MixTuple":
+            # k targets before the star target and j after it, not more than the fixed members on either side
+            k, j = r.randrange(0, len(t.args[0]) + 1), r.randrange(0, len(t.args[2]) + 1)
+            pre, rest, suf = [self.fresh("u") for _ in range(k)], self.fresh("u"), [self.fresh("u") for _ in range(j)]
+            for nm in pre + suf:
+                env[nm] = tuple_elem(t)
+            env[rest] = ty.List(tuple_elem(t))
+            self.note("stmt:unpack-star-on-star-tuple")
+            return [", ".join(pre + ["*" + rest] + suf) + ("," if not pre + suf else "") + f" = {v}"] + [f"use({nm})" for nm in pre + [rest] + suf]
         if t.kind == "Tuple" and t.args and r.random() < 0.7:
             names = [self.fresh("u") for _ in t.args]
             for nm, a in zip(names, t.args):
@@ -546,7 +697,7 @@ class Gen:
             self.note("stmt:unpack-fixed")
             return [", ".join(names) + ("," if len(names) == 1 else "") + f" = {v}"] + [f"use({nm})" for nm in names]
         a, rest = self.fresh("u"), self.fresh("u")
-        el = ty.Union(*t.args) if t.kind == "Tuple" and t.args else (t.args[0] if t.args else ty.ANY)
+        el = tuple_elem(t)
         env[a] = el
         env[rest] = ty.List(el)
         self.note("stmt:unpack-star")
@@ -567,6 +718,10 @@ class Gen:
             env[p] = t
         self.budget = r.randrange(4, self.max_stmts + 1)
         body = []
+        for p, t in params:
+            # every constant index of a parameter with an unbounded member is read in half of the functions that have one
+            if t.kind == "MixTuple" and r.random() < 0.5 or t.kind in ("Tuple", "VarTuple") and r.random() < 0.1:
+                body.extend(self.sweep(env, p))
         while self.budget > 0:
             body.extend(self.stmt(env, 0, False))
             if siblings and r.random() < 0.15:
@@ -605,4 +760,4 @@ def gen_module(rng, nfuncs=None, max_stmts=14) -> tuple:
         lines.extend(src)
         lines.append("")
         funcs.append((f"f{i}", params))
-    return "\n".join(lines) + "\n", funcs, g.productions
+    return "\n".join(lines) + "\n", funcs, g.productions  # a Productions set (with .counts)
